@@ -151,12 +151,14 @@ static Watchdog* wd[MAXID];
 
 static void do_create(int id, long cs) {
   emit("call create " + S(id) + " " + S(cs));
+  flush_j();                       // a crash inside the library is attributed to this call
   in_call = true;
   try { wd[id] = new Watchdog(cs, fire_tab[id]); in_call = false; emit("ret"); }
   catch (...) { in_call = false; wd[id] = nullptr; emit("exc " + pplv::exc_class()); }
 }
 static void do_destroy(int id) {
   emit("call destroy " + S(id));
+  flush_j();
   in_call = true;
   try { delete wd[id]; in_call = false; emit("ret"); }
   catch (...) { in_call = false; emit("exc " + pplv::exc_class()); }
